@@ -579,6 +579,7 @@ def build_pipeline_inspection(
     deleted_keys: set[str] = set()  # Tracks keys that have been deleted from context
     all_required_params: set[str] = set()  # All parameters required from context
     all_created_keys: set[str] = set()  # All keys created by any node
+    external_required_keys: set[str] = set()  # Keys no earlier node provides
     errors: List[str] = []
 
     # Process each node configuration
@@ -698,6 +699,8 @@ def build_pipeline_inspection(
                     for name in gppn()
                 }
 
+        # Keys deleted by earlier nodes (this node's own deletions happen after it reads)
+        deleted_before = set(deleted_keys)
         config_params: Dict[str, Any] = dict(node.processor_config)
         default_params: Dict[str, Any] = {}
         context_params: Dict[str, Optional[int]] = {}
@@ -721,6 +724,8 @@ def build_pipeline_inspection(
             elif origin == "required":
                 context_params[name] = origin_idx
                 required_params.add(name)
+                if name not in deleted_before:
+                    external_required_keys.add(name)
 
         # Merge explicit context requirements exposed by processor
         hook = getattr(processor.__class__, "get_context_requirements", None)
@@ -729,6 +734,8 @@ def build_pipeline_inspection(
                 if key not in context_params:
                     context_params[key] = key_origin.get(key)
                 required_params.add(key)
+                if key not in key_origin:
+                    external_required_keys.add(key)
 
         all_required_params.update(required_params)
 
@@ -784,7 +791,7 @@ def build_pipeline_inspection(
             deleted_keys.update(suppressed_keys)
 
         # Validate parameter availability against deleted keys
-        missing_deleted = (required_params & deleted_keys) - suppressed_keys
+        missing_deleted = required_params & deleted_before
         if missing_deleted - set(config_params.keys()):
             node_errors.append(
                 f"Node {index} requires context keys previously deleted: {sorted(missing_deleted)}"
@@ -829,8 +836,8 @@ def build_pipeline_inspection(
         inspection_nodes.append(node_inspection)
 
     # Calculate pipeline-level required context keys
-    # These are parameters required by nodes but not created by any node
-    required_context_keys = all_required_params - all_created_keys
+    # These are parameters a node requires before any node has provided them
+    required_context_keys = external_required_keys
 
     return PipelineInspection(
         nodes=inspection_nodes,
